@@ -118,6 +118,8 @@ func patcharrayReplay(args []string) {
 				ops = append(ops, map[string]interface{}{"op": "copy", "from": paX, "path": paPtr(o.I)})
 			case "move":
 				ops = append(ops, map[string]interface{}{"op": "move", "from": paPtr(o.I), "path": paPtr(o.J)})
+			case "copy":
+				ops = append(ops, map[string]interface{}{"op": "copy", "from": paPtr(o.I), "path": paPtr(o.J)})
 			case "copy_to_x":
 				ops = append(ops, map[string]interface{}{"op": "copy", "from": paPtr(o.I), "path": paX})
 			default:
